@@ -12,15 +12,18 @@ from fractions import Fraction
 # Fixed message schema used by the expression workloads (C08, C16, C07)
 ###############################################################################
 
-BOOL_FIELDS = ('p', 'q', 'ok')
-NUM_FIELDS = ('x', 'y', 'k')
-STR_FIELDS = ('txt',)
-NUMARR_FIELDS = ('xs',)
+# Short names first (they dominate the draws), then names as people spell them: underscores,
+# digits, a leading underscore, capitals, names that begin with a keyword (`not_ready`, `inside`),
+# a name that is also a built-in function (`len`).
+BOOL_FIELDS = ('p', 'q', 'ok', 'not_ready', 'is_on')
+NUM_FIELDS = ('x', 'y', 'k', 'linear_x', 'v2', '_w', 'len', 'inside')
+STR_FIELDS = ('txt', 'frame_id')
+NUMARR_FIELDS = ('xs', 'ranges')
 BOOLARR_FIELDS = ('bs',)
 MSG_FIELDS = {'m': {'x': 'num', 'ok': 'bool'}}
-ALIASES = ('A',)
+ALIASES = ('A', 'Msg_1')
 
-NUM_LITS = ('0', '1', '2', '3', '0.5', '1.5', '4', '10', '1.0', '2.0')
+NUM_LITS = ('0', '1', '2', '3', '0.5', '1.5', '4', '10', '1.0', '2.0', '255', '360', '1000', '0.1', '3.14159', '1e3', '2147483648')
 STR_LITS = ('""', '"a"', '"ab"')
 
 # String contents as people write them: escapes of every kind (lark's ESCAPED_STRING admits a
@@ -179,7 +182,8 @@ class ExprGen:
         return None
 
     def ref(self, names):
-        name = self.sim.pick('field', names)
+        # the first three names of each list are drawn most often
+        name = self.sim.pick('field', names[:3]) if len(names) > 3 and self.sim.coin('shortname', 0.6) else self.sim.pick('field', names)
         base = self.base_msg()
         if base is None:
             return ('field', name)
@@ -738,9 +742,10 @@ def _has_free_var(t, bound=()):
 ###############################################################################
 
 NUM_GRID = (Fraction(-2), Fraction(-1), Fraction(-1, 2), Fraction(0), Fraction(1, 2), Fraction(1),
-            Fraction(2), Fraction(3))
+            Fraction(2), Fraction(3), Fraction(1, 10), Fraction(255), Fraction(1000), Fraction(-360))
 ARR_GRID = ((), (Fraction(1),), (Fraction(1), Fraction(2)), (Fraction(0), Fraction(-1), Fraction(2)),
-            (Fraction(2), Fraction(2)), (Fraction(3), Fraction(1), Fraction(1, 2), Fraction(0)))
+            (Fraction(2), Fraction(2)), (Fraction(3), Fraction(1), Fraction(1, 2), Fraction(0)),
+            (Fraction(5), Fraction(-3), Fraction(0), Fraction(255), Fraction(1, 10), Fraction(2), Fraction(2)))
 BARR_GRID = ((), (True,), (False, True), (True, True, False))
 STR_GRID = ('', 'a', 'ab')
 
@@ -828,6 +833,7 @@ def valuation_from_json(doc):
 ###############################################################################
 
 TOPICS = ('a', 'b', 'c', 'd', 'e', 'f')
+ROS_TOPICS = ('/cmd_vel', 'ns/topic', '~priv', '/a/b2', 'odom_1', '/robot_0/scan', 'Topic', 'cmd_vel')
 SCOPES = ('globally', 'after', 'until', 'after_until')
 PATTERNS = ('existence', 'absence', 'response', 'requirement', 'prevention')
 
@@ -890,9 +896,11 @@ def render_property(p):
 class PropGen:
     """Random properties over the fixed schema; alias placement follows HPL's binding order."""
 
-    def __init__(self, sim, max_depth=3, topics=TOPICS, with_meta=True, allow_consts=False):
+    def __init__(self, sim, max_depth=3, topics=None, with_meta=True, allow_consts=False):
         self.sim = sim
         self.max_depth = max_depth
+        if topics is None:
+            topics = ROS_TOPICS if sim.coin('rostopics', 0.3) else TOPICS
         self.topics = topics
         self.with_meta = with_meta
         self.allow_consts = allow_consts
@@ -1004,7 +1012,7 @@ def tokenize(text):
     return TOKEN_RE.findall(text)
 
 
-SIBLINGS = (('x', 'y', 'k'), ('p', 'q', 'ok'), ('xs', 'bs'), ('a', 'b', 'c', 'd', 'e', 'f'), ('0', '1', '2', '3'),
+SIBLINGS = (('x', 'y', 'k', 'linear_x', 'v2', '_w', 'inside'), ('p', 'q', 'ok', 'not_ready', 'is_on'), ('xs', 'bs', 'ranges'), ('a', 'b', 'c', 'd', 'e', 'f'), ('/cmd_vel', 'ns/topic', '~priv', '/a/b2', 'odom_1'), ('txt', 'frame_id'), ('0', '1', '2', '3'),
             ('@A', '@B'), ('abs', 'floor', 'ceil', 'int'), ('len', 'sum', 'max', 'min'), ('<', '<=', '>', '>='),
             ('and', 'or'), ('forall', 'exists'), ('some', 'no'), ('causes', 'forbids'), ('0.5', '1.5', '2.5'))
 
